@@ -1,15 +1,26 @@
 """C14 - LDM subscriptions notify exactly the matching data, at the requested cadence.
 
-Decides: the guards in front of the consumer callback (non-empty result, multiplicity, interval, consumer still
-registered); what the callback is handed (the search for this subscription's types/filter, in the requested order);
-bookkeeping of the two subscription structures; what unsubscribe removes; the validation decision table; the reactive
-trigger.  Does not decide cadence as timing, nor isolation between subscriptions over histories.
+Decides: the guards in front of the consumer callback (notify-guards: non-empty result, at least `multiplicity`
+matches, consumer still registered, last_notified + notify_time <= now); what the callback is handed (notify-data: the
+back-end search of a request built from THIS subscription's types, filter, order and priority, ordered by its own order
+tuple; the subscription's own callback receives that result and the subscriber's application id); bookkeeping of the two
+subscription structures (bookkeeping: list and last-notified map filled and cleaned together, id = hash of the request,
+subscribe and notify use the same map, the stamp is advanced to `now` on every notifying path before the callback and on
+no skipping path - so a skipped notification fires at the first attendance after the interval); what unsubscribe removes
+(unsubscribe: only for a registered consumer, by the id named in the request, exactly the subscriptions with that id and
+ALL of them - the matches are not collected in a set, which would keep one of two equal subscriptions notified;
+subscriptions of deregistered consumers, exactly those, dropped at attendance); the validation decision table
+(validation: acceptance only after all seven validators held, each failure refused with its own result code naming the
+applicant, no other refusing path, the validators' own predicates, storing only after validation returned None and
+storing the validated request and callback); the reactive trigger (reactive: every add inserts once through the base
+service, returns its index and attends subscriptions after the insert).
+Does not decide cadence as timing, nor isolation between subscriptions over histories; expressions are compared as
+written (a call spelled twice denotes one value).
 
 Method: the functions involved are small and loop-free per subscription, so every rule is decided PATH BY PATH: a
-symbolic walk (`explore`) enumerates the paths of a statement block, substituting locals by the expressions they were
-bound to on that path; each path carries its branch conditions (compared as canonical atoms of sem.py, so the spelling
-of a test, the order of its operands, nesting of ifs and names of locals do not matter), the calls it makes (callees
-resolved by the program model, arguments bound to parameter names) and the stores it performs.
+symbolic walk (`explore`) enumerates the paths of a block, locals substituted by what they were bound to; each path
+carries its branch conditions (canonical atoms of sem.py - spelling, operand order, nesting and local names do not
+matter), the calls it makes (callees resolved, arguments bound to parameter names) and the stores it performs.
 """
 from __future__ import annotations
 
